@@ -213,6 +213,9 @@ pub fn sign_oneshot(seed: &[u8; 32], msg: &[u8]) -> [u8; 64] {
     SigningKey::from_bytes(seed).sign(msg).to_bytes()
 }
 
+/// do these 32 bytes decode to a point of the curve?
+pub fn is_curve_point(pk: &[u8; 32]) -> bool { VerifyingKey::from_bytes(pk).is_ok() }
+
 pub fn verify_oneshot(pk: &[u8], msg: &[u8], sig: &[u8]) -> bool {
     let pk: [u8; 32] = match pk.try_into() {
         Ok(p) => p,
